@@ -110,6 +110,17 @@ def run(ctx, only=None):
         ctx.programs += n2o
         ctx.suite("eventlog.two_objects", cases=n2o, alternating_appends=alts)
         ctx.require_coverage("eventlog.two_objects", "alternating_appends", alts, 20)
+    # two subscribers of one run, one of them disconnects or reconnects: the other must not starve (monitor only)
+    if not only:
+        nsl = ctx.n(36, 360)
+        for i in range(nsl):
+            b = EL.BACKENDS[i % len(EL.BACKENDS)]
+            out3, facts3 = EL.subscriber_leaves_case(rng, b, ctx.scratch, "c16")
+            ctx.count(1, ("subscriber-leaves", b, facts3["before"], facts3["after"], facts3["reconnect"]))
+            for w in out3:
+                fails.append(dict(key="C16/subscriber-starves-after-another-leaves", what=w, backend=b, ops=[], case=-3))
+        ctx.programs += nsl
+        ctx.suite("eventlog.subscriber_leaves", cases=nsl)
     # _stream_events: parameter / header precedence (finite pools, all combinations)
     cexprs, cdescr, cfails = EL.cursor_cases()
     for key, what in cfails:
